@@ -561,7 +561,7 @@ theorem compileRuleSet_oi (rules : List RuleOrBinding) (b : Bindings) (ctxs : Li
 /-- the condition on one top-level item, `p` being the items before it -/
 def QTop (p : List TopItem) (x : TopItem) : Prop :=
   match x with
-  | .errorType => errorTypeCount p = 0
+  | .errorType => errorTypeDecls p = 0
   | .rb (.binding n _) => n ∉ boundNames (topBindings p)
   | .rb (.rule r) => RuleElaborates (topBindings p) r
   | .ruleSet n rs =>
@@ -570,12 +570,12 @@ def QTop (p : List TopItem) (x : TopItem) : Prop :=
 /-- the invariant of the fold of `compileLexer` -/
 structure RTop (p : List TopItem) (g : GlueState) : Prop where
   bindings : g.bindings = topBindings p
-  errorType : g.errorType = true ↔ errorTypeCount p ≠ 0
+  errorType : g.errorType = true ↔ errorTypeDecls p ≠ 0
   entries : g.entries.map (·.1) = ruleSetNames p
   initDfa : g.initDfa = none ↔ ruleSetNames p = []
 
 theorem rTop_init : RTop [] {} :=
-  ⟨rfl, by simp [errorTypeCount], rfl, by simp [ruleSetNames]⟩
+  ⟨rfl, by simp [errorTypeDecls], rfl, by simp [ruleSetNames]⟩
 
 theorem topBindings_snoc (p : List TopItem) (x : TopItem) :
     topBindings (p ++ [x]) = topBindings p ++
@@ -596,9 +596,9 @@ theorem ruleSetNames_snoc (p : List TopItem) (x : TopItem) :
   | ruleSet n rs => rfl
   | rb y => rfl
 
-theorem errorTypeCount_snoc (p : List TopItem) (x : TopItem) :
-    errorTypeCount (p ++ [x]) = errorTypeCount p + (match x with | .errorType => 1 | _ => 0) := by
-  unfold errorTypeCount
+theorem errorTypeDecls_snoc (p : List TopItem) (x : TopItem) :
+    errorTypeDecls (p ++ [x]) = errorTypeDecls p + (match x with | .errorType => 1 | _ => 0) := by
+  unfold errorTypeDecls
   rw [List.countP_append]
   cases x with
   | errorType => rfl
@@ -631,12 +631,12 @@ theorem lexStep_ok (p : List TopItem) (g : GlueState) (x : TopItem) (g' : GlueSt
     · rw [if_pos he] at h; cases h
     · rw [if_neg he] at h
       cases h
-      have h0 : errorTypeCount p = 0 := by
+      have h0 : errorTypeDecls p = 0 := by
         have := hR.errorType
         exact Classical.byContradiction fun hc => he (this.mpr hc)
       refine ⟨h0, ⟨?_, ?_, ?_, ?_⟩⟩
       · rw [topBindings_snoc, List.append_nil]; exact hR.bindings
-      · rw [errorTypeCount_snoc]; simp
+      · rw [errorTypeDecls_snoc]; simp
       · rw [ruleSetNames_snoc, List.append_nil]; exact hR.entries
       · rw [ruleSetNames_snoc, List.append_nil]; exact hR.initDfa
   | rb y =>
@@ -654,7 +654,7 @@ theorem lexStep_ok (p : List TopItem) (g : GlueState) (x : TopItem) (g' : GlueSt
         · rw [topBindings_snoc]
           show g.bindings ++ [(n, re)] = _
           rw [hR.bindings]
-        · rw [errorTypeCount_snoc, Nat.add_zero]; exact hR.errorType
+        · rw [errorTypeDecls_snoc, Nat.add_zero]; exact hR.errorType
         · rw [ruleSetNames_snoc, List.append_nil]; exact hR.entries
         · rw [ruleSetNames_snoc, List.append_nil]; exact hR.initDfa
     | rule r =>
@@ -666,7 +666,7 @@ theorem lexStep_ok (p : List TopItem) (g : GlueState) (x : TopItem) (g' : GlueSt
         rw [← hR.bindings]
         exact compileSingleRule_ok_elab _ _ _ _ _ hq
       · rw [topBindings_snoc, List.append_nil]; exact hR.bindings
-      · rw [errorTypeCount_snoc, Nat.add_zero]; exact hR.errorType
+      · rw [errorTypeDecls_snoc, Nat.add_zero]; exact hR.errorType
       · rw [ruleSetNames_snoc, List.append_nil]; exact hR.entries
       · rw [ruleSetNames_snoc, List.append_nil]; exact hR.initDfa
   | ruleSet name rules =>
@@ -685,7 +685,7 @@ theorem lexStep_ok (p : List TopItem) (g : GlueState) (x : TopItem) (g' : GlueSt
     · rw [topBindings_snoc, List.append_nil]
       show q.1.bindings = _
       rw [h2]; exact hR.bindings
-    · rw [errorTypeCount_snoc, Nat.add_zero]
+    · rw [errorTypeDecls_snoc, Nat.add_zero]
       show q.1.errorType = true ↔ _
       rw [h3]; exact hR.errorType
     · rw [ruleSetNames_snoc]
@@ -716,7 +716,7 @@ theorem lexStep_oi (p : List TopItem) (g : GlueState) (x : TopItem) (hR : RTop p
   ⟨by
     cases x with
     | errorType =>
-      have hQ' : errorTypeCount p = 0 := hQ
+      have hQ' : errorTypeDecls p = 0 := hQ
       rw [lexStep_errorType]
       have he : ¬ g.errorType = true := fun he => hR.errorType.mp he hQ'
       rw [if_neg he]
@@ -897,16 +897,16 @@ theorem boundNames_topBindings (p : List TopItem) :
   | ruleSet n rs => rfl
   | rb y => cases y <;> rfl
 
-theorem errorTypeCount_split (pre post : List TopItem) :
-    errorTypeCount (pre ++ .errorType :: post) = errorTypeCount pre + 1 + errorTypeCount post := by
-  unfold errorTypeCount
+theorem errorTypeDecls_split (pre post : List TopItem) :
+    errorTypeDecls (pre ++ .errorType :: post) = errorTypeDecls pre + 1 + errorTypeDecls post := by
+  unfold errorTypeDecls
   rw [List.countP_append, List.countP_cons]
   simp only [if_true]
   omega
 
-theorem errorTypeCount_pos_split (l : List TopItem) (h : errorTypeCount l ≠ 0) :
+theorem errorTypeDecls_pos_split (l : List TopItem) (h : errorTypeDecls l ≠ 0) :
     ∃ pre post, l = pre ++ .errorType :: post := by
-  unfold errorTypeCount at h
+  unfold errorTypeDecls at h
   have h' : 0 < List.countP (fun x => match x with | .errorType => true | _ => false) l := Nat.pos_of_ne_zero h
   rw [List.countP_pos_iff] at h'
   obtain ⟨a, ha, hp⟩ := h'
@@ -917,25 +917,25 @@ theorem errorTypeCount_pos_split (l : List TopItem) (h : errorTypeCount l ≠ 0)
   | ruleSet n rs => cases hp
 
 theorem errorTypeOnce_iff (l : List TopItem) :
-    errorTypeCount l ≤ 1 ↔ ∀ pre post, l = pre ++ .errorType :: post → errorTypeCount pre = 0 := by
+    errorTypeDecls l ≤ 1 ↔ ∀ pre post, l = pre ++ .errorType :: post → errorTypeDecls pre = 0 := by
   constructor
   · intro h pre post e
     subst e
-    rw [errorTypeCount_split] at h
+    rw [errorTypeDecls_split] at h
     omega
   · intro h
     apply Classical.byContradiction
     intro hgt
     -- two declarations: split at the last one... we split at the first, then find another one after it
-    have hne : errorTypeCount l ≠ 0 := by omega
-    obtain ⟨pre, post, e⟩ := errorTypeCount_pos_split l hne
+    have hne : errorTypeDecls l ≠ 0 := by omega
+    obtain ⟨pre, post, e⟩ := errorTypeDecls_pos_split l hne
     have h0 := h pre post e
-    have hpost : errorTypeCount post ≠ 0 := by
-      rw [e, errorTypeCount_split] at hgt
+    have hpost : errorTypeDecls post ≠ 0 := by
+      rw [e, errorTypeDecls_split] at hgt
       omega
-    obtain ⟨pre2, post2, e2⟩ := errorTypeCount_pos_split post hpost
+    obtain ⟨pre2, post2, e2⟩ := errorTypeDecls_pos_split post hpost
     have := h (pre ++ .errorType :: pre2) post2 (by rw [e, e2]; simp)
-    rw [errorTypeCount_split] at this
+    rw [errorTypeDecls_split] at this
     omega
 
 theorem ruleSetNames_split (pre : List TopItem) (n : String) (rs : List RuleOrBinding) (post : List TopItem) :
@@ -1099,7 +1099,7 @@ def exGood : LexerDef :=
 example : StaticOK exGood := by
   rw [staticOK_iff_scan]
   refine ⟨by decide, ?_⟩
-  simp [exGood, AllSplits, QTop, ruleSetOK_iff_scan, QRS, errorTypeCount, topBindings, localBindings, boundNames, ruleSetNames,
+  simp [exGood, AllSplits, QTop, ruleSetOK_iff_scan, QRS, errorTypeDecls, topBindings, localBindings, boundNames, ruleSetNames,
     RuleElaborates, Elaborates, inlineVars, Bindings.find?, bind, Except.bind, pure, Except.pure, ClassOK, ClassExpr, builtinRanges, Generated.builtins]
 
 /-- ill-formed 1: the first rule set is not `Init` -/
